@@ -24,7 +24,7 @@ var props = map[string]*propDef{
 	"C05": {
 		level: "exploration", engine: "gensim",
 		rule:    "each simulation forks one world: variants run a seeded selection of packages together (two orders, and through All) and every package alone, with stateful scripted generators (helper-emitted flag, per-instance counters; with and without New) or the real runtimedoc/deepcopy/defaulter generators, under seeded map orders; per-package outputs are compared byte for byte and generator instances are traced; distinct = distinct (package count, selection size, real/scripted, generator names, go version)",
-		sims:    map[string]int{"quick": 120, "thorough": 6000},
+		sims:    map[string]int{"quick": 150, "thorough": 6000},
 		budget:  map[string]time.Duration{"quick": 40 * time.Second, "thorough": 15 * time.Minute},
 		explore: func(c *sim.CheckCtx) { c.Explore("c05", sim.SimC05) },
 	},
@@ -52,21 +52,21 @@ var props = map[string]*propDef{
 	"C06": {
 		level: "exploration", engine: "gensim",
 		rule:    "each simulation draws a module (declaration kinds x tag placements at global/package/declaration level x generator names that are prefixes of one another), scripted generators and 1-3 runs under asc/desc/rotated/shuffled map orders; the callback trace is compared with the enabled set computed from the spec by the rule of the property text; distinct = distinct (package count, op-kind sequence); non-trivial = at least one package executed",
-		sims:    map[string]int{"quick": 300, "thorough": 20000},
+		sims:    map[string]int{"quick": 500, "thorough": 20000},
 		budget:  map[string]time.Duration{"quick": 40 * time.Second, "thorough": 15 * time.Minute},
 		explore: func(c *sim.CheckCtx) { c.Explore("c06", sim.SimC06) },
 	},
 	"C07": {
 		level: "exploration", engine: "gensim",
 		rule:    "each simulation is a history of 3-7 ops (runs with varying generator subsets, All on/off, Force; source edits; planted stale outputs and look-alike files; broken go.mod; runs with generator errors, injected I/O errors or a SIGKILL at a random event) over a world full of files gengo must not touch; the whole tree is snapshotted before and after every run; distinct = distinct (package count, op-kind sequence incl. fault kinds)",
-		sims:    map[string]int{"quick": 300, "thorough": 20000},
+		sims:    map[string]int{"quick": 480, "thorough": 20000},
 		budget:  map[string]time.Duration{"quick": 45 * time.Second, "thorough": 15 * time.Minute},
 		explore: func(c *sim.CheckCtx) { c.Explore("c07", sim.SimC07) },
 	},
 	"C08": {
 		level: "exploration", engine: "gensim",
 		rule:    "each simulation is a history of 4-9 ops over {edit/add/delete a file, delete or corrupt gengo.sum (8 kinds), plant an unhashable entry, run, run with Force, run on a subset, failing run, killed run, external edit between load and execute, converge} against a reference model of the cache; distinct = distinct (package count, op-kind sequence incl. fault kinds)",
-		sims:    map[string]int{"quick": 300, "thorough": 20000},
+		sims:    map[string]int{"quick": 400, "thorough": 20000},
 		budget:  map[string]time.Duration{"quick": 45 * time.Second, "thorough": 15 * time.Minute},
 		explore: func(c *sim.CheckCtx) { c.Explore("c08", sim.SimC08) },
 	},
